@@ -293,7 +293,7 @@ pub fn run_encode(sc: &J, rec: &Rc<RefCell<Rec>>) {
         let mut x = lo;
         while x <= hi {
             let le: Vec<u8> = x.to_le_bytes().to_vec();
-            let v = json!({"k": k, "le": le});
+            let v = json!({"k": k, "le": le, "c": {"t": "int", "le": le, "s": k.starts_with('i')}});
             for c in cols {
                 encode_one(rec, &v, c, "bin", None);
             }
